@@ -212,12 +212,18 @@ def run(m, chk):
         "every call site on both the polynomial and the rational branch (ARG-FLOW), the refusal escapes as ValueError. "
         "Exactness when removable, the error bound and the insert/remove round trip are not decided."
     )
-    chk.decides = ["ABS-INSIDE (the error matrix of a vector-valued fit is reduced over absolute values: coordinates cannot cancel)", "DTYPE-AGREE (every array that is a factor of an in-place accumulation into the Gram matrices is built with their number type)", "PRECHECK (a refusal of the weights setter cannot come after the curve has been written)", "NODES-OF-NEW (the interpolation nodes handed to update() are the knots of the new knot vector, taken after its last change)", "ERROR-QUADRATIC (with interpolation constraints the reported error is the whole quadratic form in T, not the short form of the free minimiser)", "DEHOMOG-PAIR (points divided by a list of weights are stored with exactly those weights)", "LOOP-ACCUMULATE (the error handed to the gate is not overwritten per component in a loop)", "MEMO-KEY (no function on the path is memoised by the value of numbers / knot vectors)", "GATE-TOL", "COMMIT-LAST(update)", "N", "ARG-FLOW (nodes, tolerance)", "X-ESCAPE", "WEIGHT-HOMOG (control points a rational fit commits are of degree 0 in the weights)"]
+    chk.decides = ["ERROR-COVERS (the error fit_curve returns contains the quadratic form of the error matrix for every quantity the fit replaces — weighted points and weights)", "WALK-ONCE (the nodes of knot_remove / knot_clean are materialised before the validation loop and the subtraction walk them: a one-pass iterable is not used up by the first)", "ABS-INSIDE (the error matrix of a vector-valued fit is reduced over absolute values: coordinates cannot cancel)", "DTYPE-AGREE (every array that is a factor of an in-place accumulation into the Gram matrices is built with their number type)", "PRECHECK (a refusal of the weights setter cannot come after the curve has been written)", "NODES-OF-NEW (the interpolation nodes handed to update() are the knots of the new knot vector, taken after its last change)", "ERROR-QUADRATIC (with interpolation constraints the reported error is the whole quadratic form in T, not the short form of the free minimiser)", "DEHOMOG-PAIR (points divided by a list of weights are stored with exactly those weights)", "LOOP-ACCUMULATE (the error handed to the gate is not overwritten per component in a loop)", "MEMO-KEY (no function on the path is memoised by the value of numbers / knot vectors)", "GATE-TOL", "COMMIT-LAST(update)", "N", "ARG-FLOW (nodes, tolerance)", "X-ESCAPE", "WEIGHT-HOMOG (control points a rational fit commits are of degree 0 in the weights)"]
     chk.not_decided = ["zero deviation when removable", "the error bound", "insert/remove round trip as values"]
     tolerance_gate(r, chk)
     rule_n(r, chk)
     q = "curves.Curve.knot_remove"
     arg_flow(r, chk, "ARG-FLOW", q, ".update", "nodes", ["nodes", "self.knotvector"], what="with tolerance=None the result must still interpolate the old curve at the remaining knots")
+    from .extra import error_covers
+
+    error_covers(r, chk)
+    from .extra import walk_once
+
+    walk_once(r, chk, ["curves.Curve.knot_remove", "curves.Curve.knot_clean"], floor=2, only=("nodes",))
     from .extra import abs_inside
 
     abs_inside(r, chk, ["curves.Curve.fit_curve", "curves.Curve.clean"], floor=1)
